@@ -248,3 +248,24 @@ def frames_dec(key: bytes, ctr: int, stream: bytes):
         ctr += 1
         i += 2 + n + 16
     return frames, ctr, stream[i:]
+
+
+# ------------------------------------------------------------------ structured TLV8 (HAP-BLE / CoAP / camera structs)
+def enc_struct(items) -> bytes:
+    """Generic reference encoder.  items: list of (type, v) with v = bytes | list-of-items
+    (nested message) | ("list", [items, ...]) (list of messages, `00 00` between them).
+    Values are split into maximal 255-byte fragments; a zero-length value is `t 00`."""
+    out = bytearray()
+    for t, v in items:
+        if isinstance(v, tuple) and v[0] == "list":
+            v = b"\x00\x00".join(enc_struct(x) for x in v[1])
+        elif isinstance(v, list):
+            v = enc_struct(v)
+        v = bytes(v)
+        if not v:
+            out += bytes([t, 0])
+            continue
+        for i in range(0, len(v), 255):
+            c = v[i:i + 255]
+            out += bytes([t, len(c)]) + c
+    return bytes(out)
